@@ -17,7 +17,9 @@ ALLOWED_AXIOMS = {"propext", "Classical.choice", "Quot.sound"}
 TRUSTED_BASE = [
     "Lean 4.33.0 kernel; axioms limited to propext, Classical.choice, Quot.sound (audited with #print axioms on every run)",
     "the Lean compiler/runtime executing the model definitions in hidi-driver",
-    "tools/extract (Go AST fact/table extractor) and the hand-written expectations on its output",
+    "tools/extract (Go AST fact/table extractor) and the hand-written expectations on its output; its Go-to-Lean body translators "
+    "(golite.go, multinote.go, ledframe.go, findcfg.go, notes.go) and the primitives of Hidi/GoLite.lean / Hidi/Led.lean they target "
+    "(map accesses, look-ups, sends, sort.Ints, closures of the LED loop are modelled; control flow and arithmetic are translated)",
     "the overlay-injected Go runners under /verif/harness and this orchestrator's diff/canonicalisation",
 ]
 
